@@ -685,8 +685,13 @@ def run(db: DB, rep: Report) -> None:
                 if paths.reaching_def(local, lp, f.node) is not None and \
                         paths.reaching_def(local, lp, f.node) is not n.value:
                     continue
+                it_res = paths.resolve_flow(lp.iter, lp, f.node, depth=3)
+                if isinstance(it_res, (ast.Tuple, ast.List)) and not it_res.elts:
+                    continue        # a loop over an empty literal (an inlined helper's unused side) adds no edge
                 n_k8 += 1
                 it = norm(lp.iter)
+                if it != base and norm(it_res) == paths.flow_text(ast.parse(base, mode="eval").body, n, f.node):
+                    it = base       # the same list, reached through a local / an inlined helper's parameter
                 rep.check("K8", it == base, db.loc(lp), "FlowGraph." + f.name, "rank-deps:%s.%s" % (f.name, local),
                           "%s = %s(..., %s, ...) waits for RankNodes of %s" % (local, n.value.func.id, want, it),
                           "FlowGraph.%s builds %s over the ranks %s but makes it wait for the ranks of %s: it "
